@@ -163,21 +163,28 @@ def run_case(case):
         if case.get("ref_only"):
             # in the second process the twin grid (same size, end points, degree, log mode; other interior nodes) is served FIRST:
             # a process-wide memo that cannot tell the two grids apart now pollutes the reference itself
-            try:
-                # (with the LAST observable of the request, so that lazily initialised process-wide state is first touched by another
-                # observable than in the first process)
-                yad.Runner(th, cards.observables(request(names[-1:], pts[:2]), xgrid=cards.warp_grid(g["xgrid"]), deg=g["deg"], is_log=g["is_log"], **case["obs"])).get_result()
-                # ... the very same nodes in the other interpolation mode and with another polynomial degree (process-wide state keyed by the
-                # nodes alone)
-                yad.Runner(th, cards.observables(request(names[:1], pts[:1]), xgrid=g["xgrid"], deg=g["deg"], is_log=not g["is_log"], **case["obs"])).get_result()
-                if len(g["xgrid"]) > g["deg"] + 2:
-                    yad.Runner(th, cards.observables(request(names[:1], pts[:1]), xgrid=g["xgrid"], deg=g["deg"] + 1 if g["deg"] < 4 else g["deg"] - 1, is_log=g["is_log"], **case["obs"])).get_result()
-                if th["FNS"] != "ZM-VFNS":
-                    # ... and the same request under another NfFF first (process-wide state keyed without the flavour number)
-                    th_other = dict(th, NfFF=th["NfFF"] + 1 if th["NfFF"] < 5 else th["NfFF"] - 1)
-                    yad.Runner(th_other, mkobs(request(names[-1:] + [names[0].split("_")[0] + "_total"], pts[:1]))).get_result()
-            except ValueError:
-                pass
+            # (each pre-run on its own: a rejection of one of them must not cancel the others; the grid-related ones at PTO <= 2 - what they
+            # can pollute does not depend on the order, and massive N3LO pre-runs are slow)
+            th_lo = dict(th, PTO=min(th["PTO"], 2), PTODIS=min(th["PTODIS"], 2))
+
+            def pre(th_, ob_):
+                try:
+                    yad.Runner(th_, ob_).get_result()
+                except (ValueError, NotImplementedError):
+                    pass
+
+            # (with the LAST observable of the request, so that lazily initialised process-wide state is first touched by another
+            # observable than in the first process)
+            pre(th, cards.observables(request(names[-1:], pts[:2]), xgrid=cards.warp_grid(g["xgrid"]), deg=g["deg"], is_log=g["is_log"], **case["obs"]))
+            # ... the very same nodes in the other interpolation mode and with another polynomial degree (process-wide state keyed by the
+            # nodes alone)
+            pre(th_lo, cards.observables(request(names[:1], pts[:1]), xgrid=g["xgrid"], deg=g["deg"], is_log=not g["is_log"], **case["obs"]))
+            if len(g["xgrid"]) > g["deg"] + 2:
+                pre(th_lo, cards.observables(request(names[:1], pts[:1]), xgrid=g["xgrid"], deg=g["deg"] + 1 if g["deg"] < 4 else g["deg"] - 1, is_log=g["is_log"], **case["obs"]))
+            if th["FNS"] != "ZM-VFNS":
+                # ... and the same request under another NfFF first (process-wide state keyed without the flavour number)
+                th_other = dict(th, NfFF=th["NfFF"] + 1 if th["NfFF"] < 5 else th["NfFF"] - 1)
+                pre(th_other, mkobs(request(names[-1:] + [names[0].split("_")[0] + "_total"], pts[:1])))
         ref_out = yad.Runner(th, mkobs(request(names, pts))).get_result()
         ref = {(n, i): ref_out[n][i] for n in names for i in range(len(pts))}
         import hashlib
@@ -291,10 +298,12 @@ def execute(cases, deadline, progress):
     sub = [dict(cases[i], ref_only=True) for i in order]
     # few processes: each one sees many different requests; and another string-hash seed than the first set of processes, so that a
     # result that follows the iteration order of a set or of hashed keys differs as well
-    other = Pool(PROP, "jit", nworkers=2, case_timeout=600, extra_env={"PYTHONHASHSEED": "4242"}).map(sub, deadline)
+    other = Pool(PROP, "jit", nworkers=2, case_timeout=900, extra_env={"PYTHONHASHSEED": "4242"}).map(sub, deadline)
     for i, r2 in zip(order, other):
         r1 = results[i]
         if not r1 or not r2 or "ref_digest" not in r1 or "ref_digest" not in r2:
+            if r1:  # the second-process reference is missing (time-out, budget): counted, so that the evidence shows what was not compared
+                r1.setdefault("probes", {})["other_process_missing"] = 1
             continue
         r1.setdefault("classes", []).append("other-process")
         r1["compared"] = r1.get("compared", 0) + 1
